@@ -325,6 +325,12 @@ fn parse_tuple_literal_or_parentheses(
 
             let start_idx = tokens.idx;
             exprs.push(parse_expression(tokens, id_gen, diagnostics));
+            if tokens.idx <= start_idx {
+                // No progress (e.g. we reached the end of the
+                // file), so stop rather than looping forever.
+                break;
+            }
+
             assert!(
                 tokens.idx > start_idx,
                 "The parser should always make forward progress."
@@ -1994,6 +2000,12 @@ fn parse_tuple_type_hint(
             tokens.pop();
         }
 
+        if tokens.idx <= start_idx {
+            // No progress (e.g. we reached the end of the
+            // file), so stop rather than looping forever.
+            break;
+        }
+
         assert!(
             tokens.idx > start_idx,
             "The parser should always make forward progress."
@@ -2179,6 +2191,12 @@ fn parse_parameters(
                     msgtext!(" here, but reached the end of the file."),
                 ]),
             });
+            break;
+        }
+
+        if tokens.idx <= start_idx {
+            // No progress (e.g. we reached the end of the
+            // file), so stop rather than looping forever.
             break;
         }
 
@@ -2809,6 +2827,12 @@ fn parse_let_destination(
 
             if !peeked_symbol_is(tokens, ")") {
                 require_token(tokens, diagnostics, ",");
+            }
+
+            if tokens.idx <= start_idx {
+                // No progress (e.g. we reached the end of the
+                // file), so stop rather than looping forever.
+                break;
             }
 
             assert!(
